@@ -89,7 +89,25 @@ func R12Registry(c *Ctx) {
 			}
 		}
 		fname := FuncShort(lr)
-		if dbRem == nil || listStore == nil || evStore == nil || len(stops) < 2 {
+		evPresent := evStore != nil
+		if !evPresent {
+			// the pruning of the retained Listener.Add event may live in an unexported helper called from here
+			for _, hf := range HelperClosure(lr, 2) {
+				if hf == lr {
+					continue
+				}
+				for _, hb := range hf.Blocks {
+					for _, hin := range hb.Instrs {
+						if st, ok := hin.(*ssa.Store); ok {
+							if t, f, _, ok := FieldOf(st.Addr); ok && t == PkgServer+".Teamserver" && f == "EventsList" {
+								evPresent = true
+							}
+						}
+					}
+				}
+			}
+		}
+		if dbRem == nil || listStore == nil || !evPresent || len(stops) < 2 {
 			c.R.Bad(rule, fname, "remove = delete row + stop + unregister + prune event", c.pos(lr.Pos()), "ListenerRemove no longer does all of: DB.ListenerRemove, Stop/EndpointRemove, removal from t.Listeners, pruning of the Listener.Add event")
 		} else {
 			okOrder := true
